@@ -452,9 +452,24 @@ func partA(r *core.Run, e *core.Eng) {
 		var lastS, lastG string
 		for _, c := range candidates(r, ctx, rnd, sv, extra) {
 			for _, scope := range []string{"SESSION", "GLOBAL"} {
-				stmt := fmt.Sprintf("SET %s %s = %s", scope, name, c.lit)
+				// system variable names are case-insensitive: spell the name in upper or mixed case in a third of
+				// the statements (reads always use the lower-case name)
+				spelled := name
+				switch rnd.Intn(6) {
+				case 0:
+					spelled = strings.ToUpper(name)
+				case 1:
+					b := []byte(name)
+					for k := range b {
+						if k%2 == 0 && b[k] >= 'a' && b[k] <= 'z' {
+							b[k] -= 32
+						}
+					}
+					spelled = string(b)
+				}
+				stmt := fmt.Sprintf("SET %s %s = %s", scope, spelled, c.lit)
 				if rnd.Intn(3) == 0 {
-					stmt = fmt.Sprintf("SET @@%s.%s = %s", strings.ToLower(scope), name, c.lit)
+					stmt = fmt.Sprintf("SET @@%s.%s = %s", strings.ToLower(scope), spelled, c.lit)
 				}
 				wit := map[string]any{"variable": name, "type": kind, "declared_scope": sk, "read_only": readOnly, "statement": stmt}
 				// what the statement must do
